@@ -22,7 +22,9 @@ import (
 // length <= 2 over SyncOps) and the granularity coarse.
 
 // SyncOps is the operation alphabet (table t holds (1,1,1) (2,2,2) (4,4,4); table w, with a
-// composite unique index (a,b), holds (6,"",z) (7,"",y) (5,"","")).
+// composite unique index (a,b), holds (6,"",z) (7,"",y) (5,"",""); hd (1,1) (2,2) is
+// referenced with a cascading composite foreign key by ln (10,1,1,5) (20,2,2,5), which
+// has the second key (d2,e)).
 var SyncOps = []Op{
 	L("t", 0, "1"), L("t", 0, "3"),
 	S("t", 0, "", "", 1, 0), S("t", 0, "2", "5", 1, 0), S("t", 0, "", "", -1, 1), S("t", 1, "2", "4", 1, 0),
@@ -31,12 +33,13 @@ var SyncOps = []Op{
 	D("t", "1"), D("t", "4"),
 	I("w", "8", "", "y"), I("w", "9", "", ""), U("w", "6", "6", "", "y"),
 	I("lw", "2", "Ab"), I("lw", "3", ""),
+	U2("hd", []string{"1", "1"}, "1", "2"), D("ln", "20"),
 	A(),
 }
 
 // syncInit is the initial content for the synchronous tier.
 var syncInit = map[string][]Row{"t": t3["t"], "w": {{"6", "", "z"}, {"7", "", "y"}, {"5", "", ""}},
-	"lw": {{"1", "aB"}, {"4", ""}}}
+	"lw": {{"1", "aB"}, {"4", ""}}, "hd": hdln["hd"], "ln": hdln["ln"]}
 
 // SyncScripts returns every script of length 1..maxLen over SyncOps (an
 // explicit abort only as the last operation). maxLen == -2 is the quick-tier
